@@ -177,6 +177,7 @@ def run(ctx):
     preinsert_rule(ctx, prog)
     noshrink_rule(ctx, prog)
     mergeid_rule(ctx, prog)
+    request_rule(ctx, prog)
 
     # ---------------- REIDX
     r_re = ctx.rule("C03.REIDX", "reindex(): every id map is remapped with the gap table of its own store, under the same emptiness guard; gaps()/Handle::reindex agree on the gap convention; indices mentioning a remapped handle type are remapped")
@@ -737,3 +738,24 @@ def mergeid_rule(ctx, prog, rid="C03.MERGEID"):
         if bad:
             ctx.report(r, "%s|handle-from-other" % re.sub(r"^<(\w+::)*(\w+) as.*$", r"\2", bid), "%s writes a handle to the merged item that is not the receiver's own handle saved before the overwrite (%s): the incoming item was bound to the next free slot by insert(), so after the merge the item in slot h says it is in slot `len` - its public id resolves to a handle that denotes nothing, and soon the next inserted item" % (bid, str(bad[1])[:80]), b.file, bad[0])
     ctx.floor(r, n, 2, "Storable::merge implementations")
+
+
+# ---------------------------------------------------------------------- REQUEST
+def request_rule(ctx, prog, rid="C03.REQUEST"):
+    """`Request::to_handle(store)` is how every public id (a &str, a String, an item, a handle) is resolved; None is its
+    ordinary answer for an id nothing carries.  A body that unwraps / expects that answer turns a lookup of an unknown
+    id into a panic.  Decided over every MIR body of the crate through the producer of each unwrap's receiver."""
+    import panics
+    r = ctx.rule(rid, "no function unwraps or expects the answer of Request::to_handle: an id that resolves to nothing is an ordinary answer (None, false, an error), never a panic")
+    sites = 0
+    for bid, b in sorted(prog.bodies.items()):
+        ths = [bi for bi, t in b.calls() if (mirq.callee_of(t)[0] or "") == "store::Request::to_handle" and not b.blocks[bi].get("cleanup")]
+        if not ths:
+            continue
+        sites += len(ths)
+        ctx.functions_analysed.add(bid)
+        for s_ in panics.sources(b):
+            if s_["kind"] == "unwrap" and s_["what"].endswith("<-Request::to_handle"):
+                ctx.report(r, "%s|%s" % (mirq.short_fn(bid), s_["what"]), "%s resolves a request with to_handle() and then `%s`s the answer: asking with an id that nothing carries (any string) panics instead of answering None / false / an error" % (bid, s_["what"].split("<-")[0]), b.file, s_.get("line"))
+    r.hit("to_handle-call-sites", sample={"call_sites": sites})
+    ctx.floor(r, sites, 12, "call sites of Request::to_handle (16 counted on the pinned tree)")
